@@ -604,6 +604,11 @@ func checkC03(w *World, r *Report) {
 				r.except("R03.2", name, what, w.posOf(in.Pos()), why)
 				return
 			}
+			// an unexported helper that only the exempt construct calls is part of it
+			if why := w.exemptThroughCallers(fn, exempt, 0, map[*ssa.Function]bool{}); why != "" {
+				r.except("R03.2", name, what, w.posOf(in.Pos()), why+" (helper called only from there)")
+				return
+			}
 			// values that never reach output: timestamps of caches / debug traces / load times
 			if usedOnlyForBookkeeping(in) {
 				r.ok("R03.2", name, what, w.posOf(in.Pos()), "result only stored as a timestamp / compared with timestamps (cache statistics, modification times, debug timing), never formatted into output", true)
@@ -613,6 +618,49 @@ func checkC03(w *World, r *Report) {
 		})
 	}
 	r.Counts["nondeterminism sources on render paths"] = n2
+}
+
+// exemptThroughCallers: fn is an unexported function all of whose in-package callers are exempt
+// constructs (by base name) or such helpers themselves; returns the common reason.
+func (w *World) exemptThroughCallers(fn *ssa.Function, exempt map[string]string, depth int, seen map[*ssa.Function]bool) string {
+	if depth > 3 || seen[fn] {
+		return ""
+	}
+	seen[fn] = true
+	root := fn
+	for root.Parent() != nil {
+		root = root.Parent()
+	}
+	if root.Object() == nil || root.Object().Exported() {
+		return ""
+	}
+	node := w.callgraph().Nodes[root]
+	if node == nil || len(node.In) == 0 {
+		return ""
+	}
+	reason := ""
+	for _, e := range node.In {
+		c := e.Caller.Func
+		if c.Package() != root.Package() {
+			return ""
+		}
+		base := ssaName(c)
+		if i := strings.Index(base, "$"); i >= 0 {
+			base = base[:i]
+		}
+		if i := strings.LastIndex(base, "."); i >= 0 {
+			base = base[i+1:]
+		}
+		why, ok := exempt[base]
+		if !ok {
+			why = w.exemptThroughCallers(c, exempt, depth+1, seen)
+		}
+		if why == "" || (reason != "" && reason != why) {
+			return ""
+		}
+		reason = why
+	}
+	return reason
 }
 
 // usedOnlyForBookkeeping: the time value is only stored into struct fields / map entries of
